@@ -65,7 +65,21 @@ def partial_text(rng):
     h, mi, s, us = rng.randint(0, 23), rng.randint(0, 59), rng.randint(0, 59), rng.choice([0, 500000, 123456])
     mon = rng.choice([render_gen.MON[m - 1], render_gen.MONTH[m - 1]])
     form = rng.choice(['h-ampm', 'hm', 'hms', 'frac', 'year', 'month', 'month-year', 'day-month', 'month-day', 'iso-ym', 'date',
-                       'weekday', 'weekday-hm', 'date-hm', 'hms-h', 'weekday-month', 'weekday-month', 'weekday-month-year'])
+                       'weekday', 'weekday-hm', 'date-hm', 'hms-h', 'weekday-month', 'weekday-month', 'weekday-month-year',
+                       'dm-numeric', 'md-numeric'])
+    if form in ('dm-numeric', 'md-numeric'):
+        # two numbers: day and month in the order the dayfirst flag says (a first member > 12 can only be the day)
+        sep = rng.choice(['/', '-', ' '])          # not '.': two numbers joined by a dot are one decimal number
+        tail = rng.choice(['', '', ' %02d:%02d' % (h, mi)])
+        given = {'day': d, 'month': m}
+        if tail:
+            given.update(hour=h, minute=mi)
+        if form == 'dm-numeric':
+            return form, '%02d%s%02d%s' % (d, sep, m, tail), given, None, {'dayfirst': True}
+        if d > 12:
+            d = rng.randint(1, 12)
+            given['day'] = d
+        return form, '%02d%s%02d%s' % (m, sep, d, tail), given, None, rng.choice([{}, {'dayfirst': False}])
     if form == 'h-ampm':
         hh, ap = (12 if h % 12 == 0 else h % 12), ('AM' if h < 12 else 'PM')
         return form, '%d %s' % (hh, ap), {'hour': h}, None
@@ -140,12 +154,14 @@ def call(f, *a, **k):
 
 def wl_default(ctx, P, tz, rng):
     default = gen_default(rng, tz)
-    label, text, given, wd = partial_text(rng)
+    pt = partial_text(rng)
+    label, text, given, wd = pt[:4]
+    flags = pt[4] if len(pt) > 4 else {}
     exp = expected_fill(default, given, wd)
-    r = call(P.parse, text, default=default)
+    r = call(P.parse, text, default=default, **flags)
     ctx.ev()
     ctx.count('default_' + label)
-    case = {'workload': 'default', 'text': text, 'default': repr(default), 'expected': repr(exp)}
+    case = {'workload': 'default', 'text': text, 'default': repr(default), 'expected': repr(exp), 'flags': flags}
     clip = 'day' not in given and default.day > calendar.monthrange(given.get('year', default.year), given.get('month', default.month))[1]
     if clip:
         ctx.count('default_day_clipped')
